@@ -78,6 +78,10 @@ func GetObject(rootGoitPath string, hash sha.SHA1) (*Object, error) {
 	}
 
 	objHash := checkSum.Sum(nil)
+	if !hash.Compare(objHash) {
+		// the content does not belong to the requested id (damaged or misplaced object file)
+		return nil, ErrInvalidObject
+	}
 
 	object := &Object{
 		Type: objType,
